@@ -19,6 +19,10 @@
       values (an iff), from the token list on; [C13_unquoted_exact_text] is the same iff
       from the TEXT of the line (tokenizer step: [C13_tokenize_unquoted]).
       The witnesses [C13_witness_*] go through the whole of [plan] from the text.
+    - [C13_glob_blank] (FULL, text level): filename expansion -- a pattern word whose matched
+      paths all hold a blank (in ANY component: the tag is decided on the whole path,
+      [C13_glob_tag_whole_path]) plans as one command, each path one double-quoted word, no
+      redirection.  Paths without a blank stay untagged: classes untagged_*.
     - [C13_post_passes_from], [C13_dq_with_input]: a line that ALSO carries a genuine input
       redirection ([<] / [<<<] written unquoted): the operator acts on its own target and the
       quoted arguments -- whatever their values, the words [<] and [<<<] included -- stay words.
@@ -31,7 +35,7 @@
 From Coq Require Import List NArith ZArith Bool.
 From Cicada Require Import Base.Chars Base.Tag Model.Tokenizer Model.Expand Model.ExpandRef Model.Redirect Model.FullPlan.
 From Cicada Require Import Proofs.TokenizerProofs Proofs.TokenizerWordProofs Proofs.SubstProofs Proofs.ExpandBasics Proofs.C13Proofs.
-From Cicada Require Proofs.ExpandUntagged.
+From Cicada Require Proofs.ExpandUntagged Proofs.GlobTagProofs.
 From Cicada Require Proofs.RedirectProofs Proofs.PlanInert Proofs.ExpandInert.
 Import ListNotations.
 From Coq Require String.
@@ -264,6 +268,53 @@ Print Assumptions C13_unquoted_exact_text.
 Print Assumptions C13_tokenize_unquoted.
 Print Assumptions C13_post_passes_from.
 Print Assumptions C13_dq_with_input.
+
+(* ------------------------------------------------------------------ round 4: filename expansion, blank in ANY path component *)
+(** the protective tag of a produced name is decided on the WHOLE matched path *)
+Theorem C13_glob_tag_whole_path : forall s, contains_char 32 s = true -> retag s = (TDq, s).
+Proof. exact GlobTagProofs.retag_blank. Qed.
+
+(** expand_glob on one pattern word among tokens it skips: exactly the matched names, each through [retag] *)
+Theorem C13_expand_glob_one : forall W (pre post : tokens) (pat : str) (names : list str),
+  Forall ExpandInert.still pre -> Forall ExpandInert.still post ->
+  needs_globbing pat = true -> glob_one W pat = Some names ->
+  expand_glob W (pre ++ (TNone, pat) :: post) = Ok (pre ++ map retag names ++ post).
+Proof. exact GlobTagProofs.expand_glob_one. Qed.
+
+(** from the TEXT: a pattern word (ordinary characters and stars, star in ANY component) at any
+    position among quoted arguments; every matched path holds a blank (and no backquote /
+    dollar-paren -- the substitution passes run after glob): ONE foreground command, each
+    path ONE double-quoted word, NO redirection / pipe / background, whatever operator
+    characters the paths hold in whichever component. *)
+Theorem C13_glob_blank : forall W fuel cmd (args1 args2 : list (nat * qarg)) n (pat : str) names,
+  plain_word cmd = true -> forallb arith_body cmd = false -> split_env cmd = None -> ExpandInert.cmd_ok W cmd ->
+  forallb (fun '(_, a) => wf_qarg a) args1 = true -> forallb (fun '(_, a) => wf_qarg a) args2 = true ->
+  Forall (fun '(_, a) => calm_qarg a) args1 -> Forall (fun '(_, a) => calm_qarg a) args2 ->
+  forallb wchar pat = true ->
+  needs_globbing pat = true -> ~ In 36 pat -> ~ In 96 pat -> ~ In 123 pat -> strip_prefix [126] pat = None ->
+  glob_one W pat = Some names ->
+  forallb (contains_char 32) names = true ->
+  Forall (fun s => ~ In 96 s /\ has_dollar_paren s = false) names ->
+  plan W fuel (render_cmd cmd args1 ++ c_space :: spaces n ++ pat ++ render_args args2)
+  = Ok (one_cmd ((TNone, cmd) :: toks_of args1 ++ map (fun s => (TDq, s)) names ++ toks_of args2)).
+Proof. exact GlobTagProofs.glob_blank_one_cmd_text. Qed.
+
+(** the seeded scenario: a directory named  p >q  holding f, the line  echo */f ; and non-vacuity of
+    the hypotheses of C13_glob_blank on it *)
+Definition W_dir : World :=
+  mkWorld (fun _ => None) (fun _ => None) 0%Z 1%Z (s2l "/h")
+          (fun p => if str_eqb p (s2l "*/f") then Some [s2l "p >q/f"; s2l "<a b/f"] else Some [])
+          (fun _ => Some []) (fun _ => None).
+Example C13_witness_glob_dir :
+  plan W_dir 5 (s2l "echo */f") = Ok (one_cmd [tk "echo"; (TDq, s2l "p >q/f"); (TDq, s2l "<a b/f")]) /\
+  forallb wchar (s2l "*/f") = true /\ needs_globbing (s2l "*/f") = true /\
+  glob_one W_dir (s2l "*/f") = Some [s2l "p >q/f"; s2l "<a b/f"] /\
+  forallb (contains_char 32) [s2l "p >q/f"; s2l "<a b/f"] = true.
+Proof. vm_compute. repeat split. Qed.
+
+Print Assumptions C13_glob_tag_whole_path.
+Print Assumptions C13_expand_glob_one.
+Print Assumptions C13_glob_blank.
 
 Check C13_dq.
 Check C13_unquoted_partial : forall W fuel cmd l1 l2 noeq br pre name post,
